@@ -1,4 +1,5 @@
 import PyxModel.Prebuild.Supported
+import Gen.OalLex
 
 /-
   `lexical b` — the lexical side conditions under which the TOKEN-level model speaks about TEXT: every name is an
@@ -12,19 +13,16 @@ import PyxModel.Prebuild.Supported
 -/
 namespace Pyx.Prebuild
 
-def oalKeywords : List String :=
-  ["assign", "assigner", "break", "bridge", "send", "control", "stop", "continue", "create", "event", "instance",
-   "of", "object", "delete", "for", "each", "in", "generate", "if", "elif", "else", "relate", "to", "across",
-   "using", "return", "select", "one", "any", "many", "transform", "unrelate", "from", "while", "class", "creator",
-   "related", "by", "instances", "where", "cardinality", "empty", "false", "not", "not_empty", "true", "and", "or",
-   "param", "rcvd_evt", "self", "selected", "loop", "then"]
+/-- `t_ID` of bridgepoint/oal.py: `value.upper() in self.keywords` — the keyword table is the GENERATED one
+    (`Gen/OalLex.lean`, re-read from oal.py on every run), not a copy -/
+def isKeyword (s : String) : Bool := Gen.OalLex.keywords.contains (s.toList.map Char.toUpper)
 
 def isIdentStart (c : Char) : Bool := c.isAlpha || c == '_'
 def isIdentChar (c : Char) : Bool := c.isAlphanum || c == '_'
 
 def isIdent (s : String) : Bool :=
   match s.toList with
-  | c :: cs => isIdentStart c && cs.all isIdentChar && !oalKeywords.contains (lowerStr s)
+  | c :: cs => isIdentStart c && cs.all isIdentChar && !isKeyword s
   | [] => false
 
 /-- an instance name: an identifier or the keyword self (already folded by `canon`) -/
